@@ -697,6 +697,10 @@ class FreqTransform(Stream):
         if not (np.all(np.isfinite(ip)) and np.all(np.isfinite(iff))):
             fs.append(Failure('non-finite-output', 'phase or frequency contains NaN/inf'))
             return fs
+        for j in range(ncol):          # amplitude: finite, except an all-NaN column when the IMF has no upper envelope (nht/quad)
+            bad = ~np.isfinite(ia[:, j])
+            if bad.any() and (case['method'] == 'hilbert' or not bad.all()):
+                fs.append(Failure('amplitude-non-finite', 'column %d: %d non-finite amplitude samples' % (j, int(bad.sum()))))
         if not np.all((ip >= 0) & (ip <= TP)):
             i = np.argwhere(~((ip >= 0) & (ip <= TP)))[0]
             fs.append(Failure('phase-out-of-range', 'IP[%d,%d] = %r not in [0, 2pi)' % (i[0], i[1], float(ip[i[0], i[1]]))))
@@ -1357,7 +1361,12 @@ STREAMS = [Wrap(), Conversions(), Roundtrip(), ComplexPhase(), FreqTransform(), 
 # =============================================================================== calibration of the recovery table
 
 def calibrate(seeds=range(1, 9), per_seed=5000, resonant=True):
-    """Measure the worst recovery errors on the tree under EMD_REPO and print harness/props/_phase_table.py."""
+    """Measure the worst recovery errors on the (clean) tree under EMD_REPO; returns the text of props/_phase_table.py.
+
+    Regenerate with (about 6 min single process; the seeds may also be split over processes and merged by max):
+      C09_CALIBRATE=1 /venv/bin/python -c "import sys; sys.path[:0] = ['$EMD_REPO', 'harness']; from props import c09; \
+          open('harness/props/_phase_table.py', 'w').write(c09.calibrate())"
+    """
     import random
     import emd
     worst = {m: {} for m in P.METHODS}
